@@ -443,6 +443,10 @@ class _Resolver:
     def resolveHostName(self, receiver, hostName, portNumber=0, addressTypes=None,
                         transportSemantics="TCP"):
         receiver.resolutionBegan(None)
+        if hostName.endswith(".invalid"):
+            # a name that does not resolve (no DNS on this LAN): HostnameEndpoint fails with DNSLookupError
+            receiver.resolutionComplete()
+            return receiver
         if _is_ip(hostName) or self.net is None:
             ip = hostName if _is_ip(hostName) else "10.9.9.9"
         else:
